@@ -299,3 +299,4 @@ V("C17", "module_entry_drops_status", "violation", ("andes/__main__.py", "    sy
 V("C17", "pflow_exit_code_overwritten", "violation", (PFLOW, "        system.exit_code += 0 if self.converged else 1\n", "        system.exit_code = 0 if self.converged else 1\n"), rule="C17.exit")
 V("C17", "benign_pflow_exit_code_if_form", "silent", (PFLOW, "        system.exit_code += 0 if self.converged else 1\n", "        if not self.converged:\n            system.exit_code += 1\n"))
 V("C20", "update_not_rolled_back", "violation", (COMMONF, "            for key, val in previous.items():\n                if val is _missing:\n                    self.__dict__.pop(key, None)\n                else:\n                    self.__dict__[key] = val\n            raise\n", "            raise\n"), rule="C20.alternatives")
+V("C12", "island_search_unbounded", "violation", (SYSTEM, "            if starting_bus >= n:\n                break\n\n", ""), rule="C12.series")
